@@ -149,12 +149,19 @@ func (g *exprGen) expr(w, depth int) string {
 		case 1:
 			return fmt.Sprintf("%s.max(no_less_than: %s)", v, a())
 		case 2:
+			if tp.Chance(1, 3) { // a non-constant bit count with a known range
+				return fmt.Sprintf("%s.low_bits(n: (args.a32 & %d))", v, []int{3, 7, 15, 31}[tp.Draw(4)]&(w-1))
+			}
 			return fmt.Sprintf("%s.low_bits(n: %d)", v, tp.Draw(w+1))
 		}
 		return fmt.Sprintf("%s.high_bits(n: %d)", v, tp.Draw(w+1))
 	}
 	if g.helper && w == 8 {
 		return fmt.Sprintf("this.h8(x: %s)", a())
+	}
+	if g.helper && w == 32 {
+		// several parameters of different widths: argument order matters
+		return fmt.Sprintf("this.mix(p: %s, q: %s, r: %s)", g.expr(8, depth-1), g.expr(16, depth-1), a())
 	}
 	return g.leaf(w)
 }
@@ -208,11 +215,15 @@ func (g *exprGen) stmt(depth int) []string {
 		if w != 64 && tp.Chance(1, 4) {
 			dst = fmt.Sprintf("this.t%d[%s & 3]", w, []string{"x32", "args.a32", "this.f32"}[tp.Draw(3)])
 		}
-		switch tp.Pick(6, 1, 1) {
+		switch tp.Pick(6, 1, 1, 1, 1) {
 		case 1:
 			return []string{fmt.Sprintf("%s >>= %d", dst, tp.Draw(w))}
 		case 2:
 			return []string{fmt.Sprintf("%s ~mod<<= %d", dst, tp.Draw(w))}
+		case 3:
+			return []string{fmt.Sprintf("%s /= %d", dst, 1+tp.Draw(9))}
+		case 4:
+			return []string{fmt.Sprintf("%s %%= %d", dst, 1+tp.Draw(9))}
 		}
 		return []string{fmt.Sprintf("%s %s %s", dst, compoundOps[tp.Draw(len(compoundOps))], g.expr(w, 1))}
 	case 2:
@@ -291,7 +302,8 @@ func generateExprProgram(tp *sim.Tape) string {
 	if g.helper {
 		sb.WriteString("pri func foo.h8(x: base.u8) base.u8 {\n\treturn (args.x ~mod* 3) ~mod+ (this.f8 >> 1)\n}\n\n")
 		sb.WriteString("pri func foo.bump!(d: base.u16) {\n\tthis.f16 ~mod+= args.d\n\tthis.f32 ~sat+= (args.d as base.u32)\n}\n\n")
-		mech["h8"], mech["bump"] = "helper", "helper"
+		sb.WriteString("pri func foo.mix(p: base.u8, q: base.u16, r: base.u32) base.u32 {\n\treturn (((args.p as base.u32) ~mod<< 16) ~mod+ ((args.q as base.u32) ~mod* 3)) ~mod- args.r\n}\n\n")
+		mech["h8"], mech["bump"], mech["mix"] = "helper", "helper", "helper"
 	}
 	nm := 1 + tp.Draw(3)
 	for m := 0; m < nm; m++ {
